@@ -67,8 +67,11 @@ def sweep_case(draw, ctx=None):
     spec = draw(gen.model_spec({"leak": True, "max_types": 2, "max_ops": 2, "max_nodes": 4, "min_nodes": 2,
                                 "max_edges": 5, "min_edges": 1, "edge_reuse": False, "expr_depth": 2, "max_alg": 1,
                                 "max_in": 2, "depths": [0], "collision": False,
-                                "funcs": ["sin", "cos", "tanh", "sigmoid", "arctan"], "pow": False}))
-    spec = gen.uniquify_init(spec)
+                                "funcs": ["sin", "cos", "tanh", "sigmoid", "arctan"], "pow": False,
+                                "overrides": draw(st.sampled_from([True, True, False]))}))
+    # (with overrides off all nodes of a type are built from ONE NodeTemplate object and a key may address a subset)
+    if any(nt.get("ov") and any(nt["ov"].values()) for nt in spec["ntypes"].values()):
+        spec = gen.uniquify_init(spec)
     repaired = []
     if ctx is not None:
         from ..finding_predicates import repair_case
@@ -133,6 +136,7 @@ def sweep_case(draw, ctx=None):
         fl = st.floats(-1, 1, allow_nan=False).map(lambda v: round(v, 3))
         inp = {"target": draw(st.sampled_from(in_vars)), "values": draw(st.lists(fl, min_size=steps, max_size=steps))}
     return {"spec": spec, "pmap": pmap, "grid": grid, "permute": permute, "input": inp,
+            "frame": draw(st.sampled_from([0, 0, 1, 2, 3])),
             "_repaired": repaired, "cfg": {"solver": solver, "dt": 0.01, "steps": steps, "vectorize": vec_}}
 
 
@@ -141,7 +145,8 @@ class SweepArm(Arm):
     budget = {"quick": 700, "thorough": 5000}
     min_per_shard = 12
     case_timeout = 120
-    required_labels = ("node_key", "edge_key", "permute", "input", "scipy", "euler", "edge_idx", "several_nodes")
+    required_labels = ("node_key", "edge_key", "permute", "input", "scipy", "euler", "edge_idx", "several_nodes",
+                       "subset_of_nodes_sharing_a_template", "dataframe_grid_permuted_index")
 
     def strategy(self, ctx):
         return sweep_case(ctx)
@@ -173,6 +178,10 @@ class SweepArm(Arm):
                     lab.append("edge_idx")
         if case["permute"]:
             lab.append("permute")
+        nts_ = [nt for _, nt in spec["nodes"]]
+        if any("nodes" in m and any(nts_.count(dict(spec["nodes"])[n]) > sum(1 for x in m["nodes"] if dict(spec["nodes"])[x] == dict(spec["nodes"])[n])
+                                     for n in m["nodes"]) for m in pmap.values()):
+            lab.append("subset_of_nodes_sharing_a_template")
         if case["input"]:
             lab.append("input")
         res.labels = sorted(set(lab)) + ["repaired:" + r for r in case.get("_repaired", [])]
@@ -223,7 +232,18 @@ class SweepArm(Arm):
         try:
             with warnings.catch_warnings():
                 warnings.simplefilter("ignore")
-                results, ptab = grid_search(circ, {k: list(v) for k, v in grid.items()}, pm, step_size=dt,
+                pg = {k: list(v) for k, v in grid.items()}
+                if case.get("frame") and not case["permute"]:
+                    # a parameter table whose integer index is a permutation of 0..n-1 (e.g. after sort_values / sample)
+                    import pandas as pd
+                    n_rows = len(next(iter(pg.values())))
+                    order = list(range(n_rows))
+                    order = order[case["frame"] % n_rows:] + order[:case["frame"] % n_rows]
+                    order = order[::-1]
+                    pg = pd.DataFrame(pg).iloc[order]
+                    lab.append("dataframe_grid" + ("_permuted_index" if order != sorted(order) else ""))
+                    res.labels = sorted(set(lab)) + ["repaired:" + r for r in case.get("_repaired", [])]
+                results, ptab = grid_search(circ, pg, pm, step_size=dt,
                                             simulation_time=T, outputs={f"v{i}": p for i, p in enumerate(sp)},
                                             inputs=dict(inputs) if inputs else None, permute_grid=case["permute"],
                                             solver=solver, vectorize=vec, verbose=False, float_precision="float64",
